@@ -342,7 +342,9 @@ pub fn mon_put(s: &mut dyn Subject, ctx: &mut Ctx, filt: &dyn Fn(&CaseDesc, &Fie
         for i in elem_indices(fd.count(), ctx.cfg.tiny) {
             let pos = fd.positions(i);
             let fmask = pos_mask(&pos);
-            let (mut choices, vexh) = gen::vals(fd, &mut rng, ctx.cfg, ctx.cfg.n_rand_val, true);
+            // all values of the field only where that stays affordable: narrow fields, or small bases (then with all raws)
+            let put_bits = if bw <= ctx.cfg.exh_raw_bits { ctx.cfg.exh_val_bits } else { ctx.cfg.exh_val_bits.min(if ctx.cfg.thorough { 10 } else { 8 }) };
+            let (mut choices, vexh) = gen::vals(fd, &mut rng, &Cfg { exh_val_bits: put_bits, ..ctx.cfg.clone() }, ctx.cfg.n_rand_val, true);
             if ctx.cfg.tiny && choices.len() > 6 {
                 let last = choices[choices.len() - 1];
                 choices.truncate(5);
